@@ -21,7 +21,7 @@ def run(chk):
         "exactly the tuple the draft prescribes (ctx in every tag; aggregator id, nonce and encoded share in each joint-randomness part; num_proofs and nonce in the "
         "query randomness; num_proofs and id in the proof share) -- a derivation that binds anything else finds no table entry and the trace is rejected at that "
         "event. (ii) behavioural: for every circuit/measurement scenario the mismatch lattice (ctx / nonce / verify key / ctx+nonce / key+nonce at one aggregator or "
-        "at all; a neighbour's identifier and share; identifier out of range) is executed and TLC recomputes the exact verdict and outputs on the tiny field, "
+        "at all; a neighbour's identifier and share; identifier out of range; another algorithm identifier at one aggregator or at all) is executed and TLC recomputes the exact verdict and outputs on the tiny field, "
         "including the documented exception (nonce substituted consistently without joint randomness yields the honest output shares). (iii) XOF level: on TurboSHAKE128, "
         "HMAC-SHA256-AES128 and fixed-key AES128, tags and binders of several parts that differ in exactly one (late or empty) part are validated by C11_Trace.tla: equal "
         "concatenations give one stream, different ones never share their first 16 bytes -- so a context string appended as a second tag part cannot be dropped inside the XOF.")
